@@ -103,10 +103,40 @@ pub enum Ev {
     Salsa { k: SK, ing: u32, id: u64, x: u64 },
     SalsaPlain(SK),
     /// body of `node` started executing for salsa key id `id`
-    Exec { node: usize, id: u64 },
-    ExecEnd { node: usize, id: u64, ret: u32 },
-    NewTs { creator: u64, ident: u32, id: u64 },
+    Exec { node: usize, id: u64, arg: u32 },
+    /// `full` = hash of the complete result (vector of Ref nodes, handle ids of makers)
+    ExecEnd { node: usize, id: u64, ret: u32, full: u64 },
+    NewTs { creator: u64, ident: u32, id: u64, t0: u32, t1: u32 },
     Intern { t: usize, v: u32, id: u64, in_query: bool },
+    // reads performed by the body that is currently executing (innermost Exec)
+    RdIn { i: usize, f: usize },
+    RdCall { node: usize, arg: u32, ret: u32 },
+    RdTs { id: u64, f: usize, v: u32 },
+    RdIt { id: u64 },
+    RdOnTs { node: usize, id: u64, ret: u32 },
+    RdOnIt { node: usize, id: u64, ret: u32 },
+    RdUntracked,
+}
+
+impl Ev {
+    pub fn digest(&self, h: u64) -> u64 {
+        use crate::rng::hash64 as hh;
+        match self {
+            Ev::Salsa { k, ing, id, x } => hh(hh(hh(hh(h, 1 + *k as u64), *ing as u64), *id), *x),
+            Ev::SalsaPlain(k) => hh(h, 100 + *k as u64),
+            Ev::Exec { node, id, arg } => hh(hh(hh(hh(h, 201), *node as u64), *id), *arg as u64),
+            Ev::ExecEnd { node, id, ret, full } => hh(hh(hh(hh(hh(h, 202), *node as u64), *id), *ret as u64), *full),
+            Ev::NewTs { creator, ident, id, t0, t1 } => hh(hh(hh(hh(hh(hh(h, 203), *creator), *ident as u64), *id), *t0 as u64), *t1 as u64),
+            Ev::Intern { t, v, id, in_query } => hh(hh(hh(hh(hh(h, 204), *t as u64), *v as u64), *id), *in_query as u64),
+            Ev::RdIn { i, f } => hh(hh(hh(h, 205), *i as u64), *f as u64),
+            Ev::RdCall { node, arg, ret } => hh(hh(hh(hh(h, 206), *node as u64), *arg as u64), *ret as u64),
+            Ev::RdTs { id, f, v } => hh(hh(hh(hh(h, 207), *id), *f as u64), *v as u64),
+            Ev::RdIt { id } => hh(hh(h, 208), *id),
+            Ev::RdOnTs { node, id, ret } => hh(hh(hh(hh(h, 209), *node as u64), *id), *ret as u64),
+            Ev::RdOnIt { node, id, ret } => hh(hh(hh(hh(h, 210), *node as u64), *id), *ret as u64),
+            Ev::RdUntracked => hh(h, 211),
+        }
+    }
 }
 
 #[derive(Clone, Copy, Debug, PartialEq, Eq, Hash, PartialOrd, Ord)]
@@ -418,6 +448,7 @@ impl<'db> Host for SalsaHost<'db> {
     }
     fn read_in(&mut self, i: usize, f: usize) -> u32 {
         let inp = self.db.sh().input(i);
+        self.db.sh().push(Ev::RdIn { i, f });
         match f {
             0 => inp.f0(self.db),
             1 => inp.f1(self.db),
@@ -425,48 +456,56 @@ impl<'db> Host for SalsaHost<'db> {
         }
     }
     fn call(&mut self, node: usize) -> u32 {
-        call_node(self.db, node)
+        let r = call_node(self.db, node);
+        self.db.sh().push(Ev::RdCall { node, arg: 0, ret: r });
+        r
     }
     fn call_multi(&mut self, node: usize, arg: u32) -> u32 {
         let k = self.db.sh().key(node);
-        match self.db.sh().prog.nodes[node].kind {
-            Kind::Multi => q_multi(self.db, k, arg).0,
-            _ => call_node(self.db, node),
-        }
+        let (r, a) = match self.db.sh().prog.nodes[node].kind {
+            Kind::Multi => (q_multi(self.db, k, arg).0, arg),
+            _ => (call_node(self.db, node), 0),
+        };
+        self.db.sh().push(Ev::RdCall { node, arg: a, ret: r });
+        r
     }
     fn mk_call(&mut self, node: usize) -> (u32, Vec<Ts<'db>>) {
         let k = self.db.sh().key(node);
-        match self.db.sh().prog.nodes[node].kind {
+        let r = match self.db.sh().prog.nodes[node].kind {
             Kind::Mk => {
                 let o = q_mk(self.db, k);
                 (o.v.0, o.hs.clone())
             }
             _ => (call_node(self.db, node), vec![]),
-        }
+        };
+        self.db.sh().push(Ev::RdCall { node, arg: 0, ret: r.0 });
+        r
     }
     fn new_ts(&mut self, ident: u32, t0: u32, t1: u32) -> Ts<'db> {
         let t = Ts::new(self.db, V(ident), V(t0), V(t1));
-        self.db.sh().push(Ev::NewTs { creator: self.me, ident, id: t.as_id().as_bits() });
+        self.db.sh().push(Ev::NewTs { creator: self.me, ident, id: t.as_id().as_bits(), t0, t1 });
         t
     }
     fn read_ts(&mut self, h: &Ts<'db>, f: usize) -> u32 {
-        match f {
+        let v = match f {
             0 => h.ident(self.db).0,
             1 => h.t0(self.db).0,
             _ => h.t1(self.db).0,
-        }
+        };
+        self.db.sh().push(Ev::RdTs { id: h.as_id().as_bits(), f, v });
+        v
     }
     fn call_on_ts(&mut self, h: &Ts<'db>) -> u32 {
-        if self.db.sh().prog.node_of_kind(Kind::OnTs).is_none() {
-            return 0;
-        }
-        q_on_ts(self.db, *h).0
+        let Some(n) = self.db.sh().prog.node_of_kind(Kind::OnTs) else { return 0 };
+        let r = q_on_ts(self.db, *h).0;
+        self.db.sh().push(Ev::RdOnTs { node: n, id: h.as_id().as_bits(), ret: r });
+        r
     }
     fn call_spec(&mut self, h: &Ts<'db>) -> u32 {
-        if self.db.sh().prog.node_of_kind(Kind::Spec).is_none() {
-            return 0;
-        }
-        q_spec(self.db, *h).0
+        let Some(n) = self.db.sh().prog.node_of_kind(Kind::Spec) else { return 0 };
+        let r = q_spec(self.db, *h).0;
+        self.db.sh().push(Ev::RdOnTs { node: n, id: h.as_id().as_bits(), ret: r });
+        r
     }
     fn specify(&mut self, h: &Ts<'db>, v: u32) {
         if self.db.sh().prog.node_of_kind(Kind::Spec).is_none() {
@@ -480,23 +519,25 @@ impl<'db> Host for SalsaHost<'db> {
         h
     }
     fn read_it(&mut self, h: &ItH<'db>) -> u32 {
+        self.db.sh().push(Ev::RdIt { id: h.id().as_bits() });
         h.v(self.db)
     }
     fn call_on_it(&mut self, h: &ItH<'db>) -> u32 {
-        if self.db.sh().prog.node_of_kind(Kind::OnIt).is_none() {
-            return 0;
-        }
-        match *h {
+        let Some(n) = self.db.sh().prog.node_of_kind(Kind::OnIt) else { return 0 };
+        let r = match *h {
             ItH::I1(x) => q_on_it1(self.db, x).0,
             ItH::I2(x) => q_on_it2(self.db, x).0,
             ItH::I3(x) => q_on_it3(self.db, x).0,
             ItH::Inf(x) => q_on_itinf(self.db, x).0,
-        }
+        };
+        self.db.sh().push(Ev::RdOnIt { node: n, id: h.id().as_bits(), ret: r });
+        r
     }
     fn acc(&mut self, v: u32) {
         Acc(v).accumulate(self.db);
     }
     fn untracked(&mut self, c: usize) -> u32 {
+        self.db.sh().push(Ev::RdUntracked);
         self.db.report_untracked_read();
         self.db.sh().cells[c].load(SeqCst)
     }
@@ -507,10 +548,24 @@ impl<'db> Host for SalsaHost<'db> {
 
 fn exec<'db>(db: &'db dyn SimDb, node: usize, me: u64, r0: u32, ts0: Option<Ts<'db>>, it0: Option<ItH<'db>>) -> BodyOut<SalsaHost<'db>> {
     let sh = db.sh();
-    sh.push(Ev::Exec { node, id: me });
+    sh.push(Ev::Exec { node, id: me, arg: r0 });
     let mut h = SalsaHost { db, me };
     let out = run_body(&mut h, &sh.prog, node, r0, ts0, it0);
-    sh.push(Ev::ExecEnd { node, id: me, ret: out.ret });
+    let mut full = crate::rng::hash64(7, out.ret as u64);
+    match sh.prog.nodes[node].kind {
+        Kind::Ref => {
+            for r in out.regs {
+                full = crate::rng::hash64(full, r as u64);
+            }
+        }
+        k if k.is_maker() => {
+            for t in &out.ts {
+                full = crate::rng::hash64(full, t.as_id().as_bits());
+            }
+        }
+        _ => {}
+    }
+    sh.push(Ev::ExecEnd { node, id: me, ret: out.ret, full });
     out
 }
 
@@ -648,4 +703,10 @@ pub fn request(db: &dyn SimDb, node: usize, arg: u32) -> u32 {
         Kind::Multi => q_multi(db, k, arg % sh.prog.m).0,
         _ => call_node(db, node),
     }
+}
+
+/// ids of the tracked structs currently enumerated by the ingredient
+pub fn ts_entries(db: &SimDatabase) -> Vec<u64> {
+    use salsa::plumbing::ZalsaDatabase;
+    Ts::ingredient(db).entries(db.zalsa()).map(|e| e.key().key_index().as_bits()).collect()
 }
